@@ -3,6 +3,7 @@ package props
 import (
 	"bytes"
 	"errors"
+	"fmt"
 	"io"
 	"strings"
 
@@ -71,11 +72,19 @@ type failR struct {
 	data     []byte
 	chunk    int
 	withData bool
+	err      error
 }
 
+// the errors a failing source reports: a plain error, one that wraps io.EOF (a transport's
+// "body truncated: EOF") and io.ErrUnexpectedEOF; only io.EOF itself means a graceful end
+var sourceErrors = []error{errBoom, fmt.Errorf("body truncated: %w", io.EOF), io.ErrUnexpectedEOF}
+
 func (r *failR) Read(p []byte) (int, error) {
+	if r.err == nil {
+		r.err = errBoom
+	}
 	if len(r.data) == 0 {
-		return 0, errBoom
+		return 0, r.err
 	}
 	n := len(r.data)
 	if r.chunk > 0 && n > r.chunk {
@@ -87,7 +96,7 @@ func (r *failR) Read(p []byte) (int, error) {
 	copy(p, r.data[:n])
 	r.data = r.data[n:]
 	if len(r.data) == 0 && r.withData {
-		return n, errBoom
+		return n, r.err
 	}
 	return n, nil
 }
@@ -183,11 +192,12 @@ func checkC16(c *Case, r *Rec) error {
 				continue
 			}
 			faults++
-			rd := &failR{data: []byte(in[:j]), withData: withData, chunk: chunk}
+			serr := sourceErrors[(j+mode)%len(sourceErrors)]
+			rd := &failR{data: []byte(in[:j]), withData: withData, chunk: chunk, err: serr}
 			if err := p.SanitizeReaderToWriter(rd, &bytes.Buffer{}); err == nil {
-				return violation("", "C16: SanitizeReaderToWriter returned nil although the source failed at offset %d (error with data=%v, chunk=%d)", j, withData, chunk)
+				return violation("", "C16: SanitizeReaderToWriter returned nil although the source failed with %q at offset %d (error with data=%v, chunk=%d)", serr, j, withData, chunk)
 			}
-			rd = &failR{data: []byte(in[:j]), withData: withData, chunk: chunk}
+			rd = &failR{data: []byte(in[:j]), withData: withData, chunk: chunk, err: serr}
 			if b := p.SanitizeReader(rd); b == nil || b.Len() != 0 {
 				got := ""
 				if b != nil {
